@@ -132,6 +132,15 @@ pub fn configs(prop: Prop, thorough: bool) -> Vec<(E1Cfg, Vec<Bound>)> {
             c.clock = true;
             c.retry = Retry::None;
             v.push((c, if thorough { t2.clone() } else { t1.clone() }));
+            // request A (tag 1) is never answered and expires while request B competes for the
+            // same slot: every interleaving of A's expiry/release/drop with B's allocation
+            for (name, retry) in [("c06-2app-N1-A-expires-none", Retry::None), ("c06-2app-N1-A-expires-count1", Retry::Count(1))] {
+                let mut c = E1Cfg::base(prop, name, 1, vec![vec![r4.clone()], vec![w3.clone()]]);
+                c.clock = true;
+                c.lose_tags = vec![1];
+                c.retry = retry;
+                v.push((c, if thorough { t3.clone() } else { t2.clone() }));
+            }
             let mut c = E1Cfg::base(prop, "c06-2app-N2-loss-abandon", 2, vec![vec![r4.clone()], vec![w3.clone()]]);
             c.abandon = true;
             c.clock = true;
